@@ -1,2 +1,142 @@
--- line-protocol driver stub (Lfu); replaced when the model exists
-def main : IO Unit := IO.println "stub"
+/-
+Line-protocol driver over `QbiceVerif.Model.TinyLfu` (property C16).  One output line per input line.
+
+  new <capacity> <P|N> <K|V>     fresh cache; Poll/Notify; pin token = key (K) or value (V)
+  get k | put k v | ins k v | upd k v | rem k | peek k | pin t | unpin t | unpinn k | notify k
+  acq q | rel h                  lock-table glue (`get_lock_instance`, dropping the h-th handle)
+  len | res                      resident count / sorted resident `key:value` list
+  hash k | caps c                `FxBuildHasher::hash_one`, `Policy::new` capacities
+
+Answers: the call's result, followed by ` ev k:b k:b …` = the questions the removal closure asked
+the listener during the call (b = 1 pinned / kept, 0 = evicted).  A panicking call answers `panic`
+(the reason goes to stderr as `panic-reason <line> <site>`); every later line up to the next `new`
+answers `dead`.  Malformed lines answer `bad-op`.  `--fix` runs the repaired model (F4).
+-/
+import QbiceVerif.Model.TinyLfu
+open QbiceVerif.TinyLfu
+
+structure DState where
+  cfg : Cfg Sketch
+  cache : Cache Sketch
+  dead : Bool := false
+  handles : Array (Option Nat) := #[]   -- lock id held by the h-th `acq`
+  nextId : Nat := 0
+
+def fmtLog (log : List (Nat × Bool)) : String :=
+  if log.isEmpty then "" else
+    " ev" ++ String.join (log.map fun (k, b) => s!" {k}:{if b then 1 else 0}")
+
+def fmtRet : Ret → String
+  | .none => "none"
+  | .some v => s!"some {v}"
+  | .inserted => "inserted"
+  | .updated => "updated"
+  | .occupied v => s!"occupied {v}"
+  | .absent => "absent"
+  | .removed v => s!"removed {v}"
+  | .unit => "ok"
+
+/-- insertion sort on keys (resident dumps are small) -/
+def insertSorted (x : Nat × Nat) : List (Nat × Nat) → List (Nat × Nat)
+  | [] => [x]
+  | y :: ys => if x.1 ≤ y.1 then x :: y :: ys else y :: insertSorted x ys
+
+def sortKV (l : List (Nat × Nat)) : List (Nat × Nat) := l.foldl (fun acc x => insertSorted x acc) []
+
+def parseNats (ws : List String) : Option (List Nat) := ws.mapM String.toNat?
+
+def apply (s : DState) (op : Op) : DState × String × Option Panic :=
+  match step s.cfg s.cache op with
+  | .ok (c, r, log) => ({ s with cache := c }, fmtRet r ++ fmtLog log, none)
+  | .error e => ({ s with dead := true }, "panic", some e)
+
+/-- `QueryLockManager::get_lock_instance` on top of the cache operations. -/
+def acquire (s : DState) (q : Nat) : DState × String × Option Panic :=
+  match sGet s.cache.core.st q with
+  | some id =>
+    -- `hot.get` clones the stored instance (now pinned), then runs its maintenance
+    let s := { s with cache := { s.cache with pins := id :: s.cache.pins } }
+    match step s.cfg s.cache (.get q) with
+    | .error e => ({ s with dead := true }, "panic", some e)
+    | .ok (c, _, log) => ({ s with cache := c, handles := s.handles.push (some id) }, s!"lock {id}" ++ fmtLog log, none)
+  | none =>
+    match step s.cfg s.cache (.get q) with
+    | .error e => ({ s with dead := true }, "panic", some e)
+    | .ok (c, _, log1) =>
+      let id := s.nextId
+      let c := { c with pins := id :: c.pins }
+      match step s.cfg c (.ins q id) with
+      | .error e => ({ s with dead := true }, "panic", some e)
+      | .ok (c, r, log2) =>
+        let got := match r with | .occupied w => w | _ => id
+        ({ s with cache := c, nextId := id + 1, handles := s.handles.push (some got) },
+          s!"lock {got}" ++ fmtLog (log1 ++ log2), none)
+
+def release (s : DState) (h : Nat) : DState × String :=
+  match s.handles[h]? with
+  | some (some id) =>
+    ({ s with cache := { s.cache with pins := s.cache.pins.erase id }, handles := s.handles.set! h none }, "ok")
+  | _ => (s, "bad-op")
+
+def handle (fix : Bool) (st : Option DState) (line : String) : Option DState × String × Option Panic :=
+  let ws := (line.trimAscii.toString.splitOn " ").filter (· ≠ "")
+  match ws with
+  | ["new", cap, strat, tk] =>
+    match cap.toNat?, strat, tk with
+    | some c, s, t =>
+      if c = 0 ∨ (s ≠ "P" ∧ s ≠ "N") ∨ (t ≠ "K" ∧ t ≠ "V") then (st, "bad-op", none) else
+      let tok : Nat → Nat → Nat := if t = "K" then fun k _ => k else fun _ v => v
+      (some { cfg := Cfg.real c (s = "P") fix tok, cache := Cache.real c }, "ok", none)
+    | _, _, _ => (st, "bad-op", none)
+  | ["hash", k] => match k.toNat? with
+    | some k => (st, s!"hash {fxHash k}", none)
+    | none => (st, "bad-op", none)
+  | ["caps", c] => match c.toNat? with
+    | some c => let (w, p, m) := capsOf c; (st, s!"caps {w} {p} {m}", none)
+    | none => (st, "bad-op", none)
+  | cmd :: args =>
+    match st with
+    | none => (st, "bad-op", none)
+    | some s =>
+      if s.dead then (st, if ["get","put","ins","upd","rem","peek","pin","unpin","unpinn","notify","acq","rel","len","res"].contains cmd then "dead" else "bad-op", none) else
+      match cmd, parseNats args with
+      | "len", some [] => (st, s!"len {s.cache.core.st.length}", none)
+      | "res", some [] =>
+        (st, "res" ++ String.join ((sortKV s.cache.core.st).map fun (k, v) => s!" {k}:{v}"), none)
+      | "acq", some [q] => let (s, o, p) := acquire s q; (some s, o, p)
+      | "rel", some [h] => let (s, o) := release s h; (some s, o, none)
+      | _, some ns =>
+        let op : Option Op := match cmd, ns with
+          | "get", [k] => some (.get k)
+          | "put", [k, v] => some (.put k v)
+          | "ins", [k, v] => some (.ins k v)
+          | "upd", [k, v] => some (.upd k v)
+          | "rem", [k] => some (.rem k)
+          | "peek", [k] => some (.peek k)
+          | "pin", [t] => some (.pin t)
+          | "unpin", [t] => some (.unpin t)
+          | "unpinn", [k] => some (.unpinNotify k)
+          | "notify", [k] => some (.notify k)
+          | _, _ => none
+        match op with
+        | some op => let (s, o, p) := apply s op; (some s, o, p)
+        | none => (st, "bad-op", none)
+      | _, none => (st, "bad-op", none)
+  | [] => (st, "bad-op", none)
+
+partial def loop (fix : Bool) (hin hout herr : IO.FS.Stream) (st : Option DState) (n : Nat) : IO Unit := do
+  let line ← hin.getLine
+  if line.isEmpty then return
+  let (st, out, p) := handle fix st line
+  hout.putStrLn out
+  match p with
+  | some e => herr.putStrLn s!"panic-reason {n} {e.name}"
+  | none => pure ()
+  loop fix hin hout herr st (n + 1)
+
+def main (args : List String) : IO Unit := do
+  let hin ← IO.getStdin
+  let hout ← IO.getStdout
+  let herr ← IO.getStderr
+  loop (args.contains "--fix") hin hout herr none 1
+  hout.flush
